@@ -95,7 +95,10 @@ def iterators(ctx, rule):
     sname = [n for n in names if n.endswith("urls_finditer")]
     bname = [n for n in names if n.endswith("urls_finditer_binary")]
     if not sname or not bname:
-        raise AnalysisError("urls_from_html: twin iterators not found")
+        # one iterator parametrised by the flavour: there are no twins to compare; str/bytes independence is
+        # decided by the model table (R5)
+        ctx.undecided(rule, "urls_from_html has no str / bytes twin iterators to compare (see R5)")
+        return
     fs = [s for s in um.tree.body if isinstance(s, ast.FunctionDef) and s.name == sname[0]][0]
     fb = [s for s in um.tree.body if isinstance(s, ast.FunctionDef) and s.name == bname[0]][0]
     ctx.fn("ural.urls_from_html." + sname[0], "ural.urls_from_html." + bname[0])
